@@ -197,6 +197,14 @@ def all_variants():
                         for grp in ("first", "middle", "last"):
                             add("read_filter", "validation", shape="or3", grp=grp, pos=rng_pos(grp, via, rf), via=via, row_filter=rf)
                         add("read_ok", "ok", shape="or2", via=via, row_filter=rf)
+                # 'unknown column in a selection' under EVERY combination of the other options of to_pandas / iter_row_groups / head
+                # (dtypes=, categories=, index=, filters=, row_filter=): the unknown name must be refused whatever else is passed; one
+                # accepted control per combination keeps the option values themselves honest
+                for opts in OPTION_LATTICE:
+                    for via in ("to_pandas", "iter_row_groups", "head"):
+                        for pos in ("first", "middle", "last"):
+                            add("read_col_opts", "validation", pos=pos, via=via, opts=list(opts))
+                        add("read_opts_ok", "ok", via=via, opts=list(opts))
             add("codec_all", "late")
             if st == "simple":
                 # an I/O failure at a chosen write call of a single-file append of a VALID frame (the positions a rejection cannot
@@ -232,6 +240,19 @@ def all_variants():
 
 
 SENTINEL_FAMILIES = ["float64_nan", "float32_nan", "Float64", "Float32", "nat_ns", "nat_us"]
+def _lattice():
+    import itertools
+    out = []
+    base = ["dtypes", "categories", "index", "filters"]
+    for n in range(len(base) + 1):
+        for sub in itertools.combinations(base, n):
+            out.append(tuple(sub))
+            if "filters" in sub:
+                out.append(tuple(sub) + ("row_filter",))
+    return [o for o in out if o]          # (the empty combination is kind read_col)
+
+
+OPTION_LATTICE = _lattice()
 IO_POSITIONS = ["first_write", "middle_write", "footer_thrift", "footer_length", "footer_magic"]
 
 
@@ -311,10 +332,24 @@ def build(v, rng, sid):
             kw["partition_on"] = list(pon) + ["nope"]
         elif kind == "plain_hasnulls_missing":
             kw["has_nulls"] = ["a", "nope"]
-    elif kind in ("read_col", "read_index", "read_filter", "read_ok"):
+    elif kind in ("read_col", "read_index", "read_filter", "read_ok", "read_col_opts", "read_opts_ok"):
         api = "read"
         cols = [c for c in L.labels(frame0)]
-        if kind == "read_col":
+        if kind in ("read_col_opts", "read_opts_ok"):
+            good = rng.sample([c for c in cols if c not in pon], 2) + (["a"] if "index" in v["opts"] else [])
+            good = list(dict.fromkeys(good))
+            kw = {"columns": place(good, "zz", v["pos"]) if kind == "read_col_opts" else good, "via": v["via"]}
+            if "dtypes" in v["opts"]:
+                kw["dtypes"] = "<the handle's own dtypes of the selected columns>"         # resolved when the call is made
+            if "categories" in v["opts"]:
+                kw["categories"] = []
+            if "index" in v["opts"]:
+                kw["index"] = "a"
+            if "filters" in v["opts"]:
+                kw["filters"] = [["a", ">", -1000]]
+            if "row_filter" in v["opts"]:
+                kw["row_filter"] = True
+        elif kind == "read_col":
             good = rng.sample(cols, 2)
             kw = {"columns": place(good, "zz", v["pos"]), "via": v["via"]}
         elif kind == "read_index":
@@ -497,6 +532,80 @@ def plan_files(sc, df1):
     return rgs, fail
 
 
+# refusals that are decided by the appended frame / codec itself, i.e. also refused by ParquetFile.write_row_groups
+CONT_KINDS = {"cols_extra", "cols_missing", "cols_renamed", "nontext_col", "dup_col", "bad_value", "none_nonnull", "na_nonnull", "bad_dtype",
+              "codec_col", "codec_all", "bad_value_many_parts", "codec_all_many_parts"}
+
+
+def new_rows_match(vals, nold, newv, pcols_):
+    """rows after the first nold = the new rows as a multiset (a partitioned row group stores them grouped by key)"""
+    def norm(c, col):
+        return [str(x) if c in pcols_ and x is not None else x for x in col]
+    got = sorted(map(repr, zip(*[norm(c, col[nold:]) for c, col in vals])))
+    want = sorted(map(repr, zip(*[norm(c, dict(newv)[c]) for c, _ in vals])))
+    return got == want
+
+
+def continuation(sc, pristine, base, old_vals, simple):
+    """class 'refused operation, then CONTINUED use of the same handle': the refused append is made through ONE ParquetFile
+    (pf.write_row_groups); after the exception the handle must describe the dataset as a fresh open does (row groups, num_rows, count,
+    content), a pickled copy of it must read the old content, and the next VALID append through it must add exactly its rows."""
+    import pickle
+    from fastparquet import ParquetFile
+    out = {"problems": [], "refused": None}
+    cdir = os.path.join(base, "c")
+    os.makedirs(cdir)
+    work = os.path.join(cdir, "ds")
+    if simple:
+        shutil.copy(pristine, work)
+    else:
+        shutil.copytree(pristine, work)
+    kw = sc["kwargs"]
+    pf = ParquetFile(work)
+    try:
+        pf.write_row_groups(L.to_df(sc["frame1"]), row_group_offsets=kw.get("row_group_offsets"), compression=kw.get("compression"))
+    except BaseException as e:       # noqa
+        out["refused"] = "%s: %s" % (type(e).__name__, str(e)[:100])
+    if out["refused"] is None:
+        return out                   # this entry point accepts what write() refuses: nothing to continue after
+    def add(sym, text):
+        out["problems"].append((sym, "after pf.write_row_groups was refused (%s): %s" % (out["refused"], text)))
+    try:
+        fresh = ParquetFile(work)
+        mine = [len(pf.row_groups), len(pf.fmd.row_groups), int(pf.fmd.num_rows), int(pf.count())]
+        want = [len(fresh.row_groups), len(fresh.fmd.row_groups), int(fresh.fmd.num_rows), int(fresh.count())]
+        if mine != want:
+            add("handle-state-after-refusal", "the handle has [len(row_groups), len(fmd.row_groups), fmd.num_rows, count()] = %s, a fresh open %s" % (mine, want))
+    except BaseException as e:       # noqa
+        add("handle-state-after-refusal", "inspecting the handle fails: %s: %s" % (type(e).__name__, str(e)[:100]))
+    try:
+        if dsfs.values(pf.to_pandas()) != old_vals:
+            add("handle-read-after-refusal", "the handle no longer reads the previous content")
+    except BaseException as e:       # noqa
+        add("handle-read-after-refusal", "reading through the handle fails: %s: %s" % (type(e).__name__, str(e)[:100]))
+    try:
+        if dsfs.values(pickle.loads(pickle.dumps(pf)).to_pandas()) != old_vals:
+            add("pickled-handle-after-refusal", "a pickled copy of the handle does not read the previous content")
+    except BaseException as e:       # noqa
+        add("pickled-handle-after-refusal", "a pickled copy of the handle cannot read: %s: %s" % (type(e).__name__, str(e)[:100]))
+    # the next valid append through the same handle
+    nok = min(2, len(sc["frame0"][0][2]))
+    frame_ok = [[f[0], f[1], list(f[2][:nok])] for f in sc["frame0"]]
+    try:
+        pf.write_row_groups(L.to_df(frame_ok))
+        vals = dsfs.values(ParquetFile(work).to_pandas())
+        nold = len(old_vals[0][1]) if old_vals else 0
+        newv = dsfs.values(L.to_df(frame_ok))
+        if len(vals[0][1]) != nold + nok:
+            add("next-append-after-refusal", "a valid append of %d rows through the same handle leaves %d rows (%d before)" % (nok, len(vals[0][1]), nold))
+        elif [[c, col[:nold]] for c, col in vals] != old_vals or not new_rows_match(vals, nold, newv, sc["partition_on"]):
+            add("next-append-after-refusal", "a valid append through the same handle: old rows intact %s, new rows as written %s" % (
+                [[c, col[:nold]] for c, col in vals] == old_vals, new_rows_match(vals, nold, newv, sc["partition_on"])))
+    except BaseException as e:       # noqa
+        add("next-append-after-refusal", "a valid append through the same handle fails / cannot be read: %s: %s" % (type(e).__name__, str(e)[:100]))
+    return out
+
+
 def run_scenario(arg):
     sc, scratch = arg
     out = {"id": sc["id"], "error": None}
@@ -569,6 +678,10 @@ def run_scenario(arg):
                     if "filters" in kw:
                         kw["filters"] = as_filters(kw["filters"])
                     pfr = ParquetFile(work, open_with=rec.open_with)
+                    if isinstance(kw.get("dtypes"), str):
+                        # the handle's own dtypes of the SELECTED known columns (a dtypes= dict naming more columns than columns= makes
+                        # the unchanged tree fail in read_row_group - an option interplay outside this property, noted in notes/C18.md)
+                        kw["dtypes"] = {c: t for c, t in pfr.dtypes.items() if c in kw["columns"]}
                     if via == "to_pandas":
                         pfr.to_pandas(**kw)
                     elif via == "iter_row_groups":
@@ -612,6 +725,8 @@ def run_scenario(arg):
         except BaseException as e:           # noqa
             out["read"] = "unreadable"
             out["read_detail"] = "%s: %s" % (type(e).__name__, str(e)[:160])
+        if sc["api"] == "write" and sc["kwargs"].get("append") is True and sc["variant"]["kind"] in CONT_KINDS:
+            out["cont"] = continuation(sc, pristine, base, old_vals, simple)
         if simple:
             out["f0"] = snap0["ds"]
             out["f1"] = snap1.get("ds")
@@ -647,6 +762,8 @@ def judge(sc, res):
         problems.append(("content-changed" if res["read"] == "other" else "unreadable",
                          "after the %s a fresh open reads %s (%s)" % ("exception " + res["raised"] if res["raised"] else "call", res["read"],
                                                                       res.get("read_detail", "%s rows, before %s" % (res.get("nrows"), res["nold"])))))
+    for sym, text in (res.get("cont") or {}).get("problems", []):
+        problems.append((sym, text))
     if expect == "validation" and res["new"]:
         problems.append(("validation-rejection-left-new-files", "new files: %s" % res["new"][:4]))
     return problems
@@ -681,9 +798,9 @@ def run(ctx):
     if ctx.quick():
         by = {}
         for v in variants:
-            by.setdefault((v["state"], v["kind"], v.get("family"), v.get("oe"), v.get("where")), []).append(v)
+            by.setdefault((v["state"], v["kind"], v.get("family"), v.get("oe"), v.get("where"), tuple(v.get("opts") or ())), []).append(v)
         variants = [v for _, vs in sorted(by.items())
-                    for v in (vs if vs[0]["kind"].startswith("read_") else rng.sample(vs, min(len(vs), 1 if vs[0].get("family") else (4 if vs[0]["expect"] == "late" else 2))))]
+                    for v in (vs if (vs[0]["kind"].startswith("read_") and not vs[0].get("opts")) else rng.sample(vs, min(len(vs), 1 if vs[0].get("family") else (4 if vs[0]["expect"] == "late" else 2))))]
     else:
         variants = variants * 3                   # three random frames / parameter draws per variant
     scs = [build(v, rng, i) for i, v in enumerate(variants)]
@@ -736,6 +853,8 @@ def run(ctx):
         if v["kind"].startswith("read_"):
             ctx.count("read_shape", "%s/%s/grp=%s/pos=%s/%s/row_filter=%s" % (v["kind"], v.get("shape"), v.get("grp"), v.get("pos"), v.get("via"), v.get("row_filter")))
         ctx.count("outcome", "%s/%s/%s" % (v["expect"], "raised" if res["raised"] else "returned", res["read"]))
+        if res.get("cont"):
+            ctx.count("continued_on_the_same_handle_after_refusal", "%s: %s" % (v["kind"], "refused, then len/read/pickle/next append checked" if res["cont"]["refused"] else "write_row_groups accepts it"))
         wrote = any(c[0] not in ("mkdir", "close") for c in res["trace"])
         for sym, text in judge(sc, res):
             ctx.fail({"component": "write_simple.append" if v["state"] == "simple" else "write_multi", "symptom": sym, "kind": v["kind"],
